@@ -3,6 +3,7 @@ Helper lemmas about `Uniflow.MapHeap` (Model/MapHeap.lean) used by Props/C15.lea
 -/
 import Uniflow.Proofs.Value
 import Uniflow.Model.MapHeap
+import Uniflow.Proofs.Dict
 namespace Uniflow.MapHeap
 open Uniflow.Value
 
@@ -110,206 +111,6 @@ theorem search_ok (b : Bucket) (key : Val) (hs : BSorted b) : SROk b key (search
   apply bsearch_ok b key hs _ 0 b.length (Nat.zero_le _) (Nat.le_refl _) (by omega)
   · intro p hp; simp at hp
   · intro p hp; simp at hp
-
-/-! ### Frame reasoning on the heap -/
-
-/-- Frame invariant relative to a base heap `hp0`: the tables of `hp0` are still there, unchanged; every
-mutableMap object created since holds a table created since. -/
-structure Frame (hp0 hp : Heap) : Prop where
-  tlen : hp0.tables.length ≤ hp.tables.length
-  olen : hp0.objs.length ≤ hp.objs.length
-  old : ∀ a, a < hp0.tables.length → hp.tables[a]? = hp0.tables[a]?
-  fresh : ∀ o a, hp0.objs.length ≤ o → hp.objs[o]? = some a → hp0.tables.length ≤ a
-
-/-- a handle that cannot write a table of the base heap: any immutable map, or a mutable map created since -/
-def Derivable (hp0 : Heap) : Handle → Prop
-  | .imm _ => True
-  | .mut o => hp0.objs.length ≤ o
-
-theorem Frame.refl (hp : Heap) : Frame hp hp :=
-  ⟨Nat.le_refl _, Nat.le_refl _, fun _ _ => rfl, fun o a ho h => by
-    have : o < hp.objs.length := by
-      rcases Nat.lt_or_ge o hp.objs.length with h' | h'
-      · exact h'
-      · rw [List.getElem?_eq_none h'] at h; cases h
-    omega⟩
-
-theorem Frame.allocTable {hp0 hp : Heap} (f : Frame hp0 hp) (t : Table) :
-    Frame hp0 (hp.allocTable t).1 ∧ (hp.allocTable t).2 = hp.tables.length ∧
-      (hp.allocTable t).1.tables.length = hp.tables.length + 1 ∧ (hp.allocTable t).1.objs = hp.objs := by
-  refine ⟨⟨?_, f.olen, ?_, f.fresh⟩, rfl, ?_, rfl⟩
-  · simp [Heap.allocTable]; have := f.tlen; omega
-  · intro a ha
-    simp only [Heap.allocTable]
-    rw [List.getElem?_append_left (by have := f.tlen; omega)]
-    exact f.old a ha
-  · simp [Heap.allocTable]
-
-theorem Frame.write {hp0 hp : Heap} (f : Frame hp0 hp) {a : Nat} (ha : hp0.tables.length ≤ a) (t : Table) :
-    Frame hp0 (hp.write a t) := by
-  refine ⟨?_, f.olen, ?_, f.fresh⟩
-  · simp [Heap.write]; exact f.tlen
-  · intro a0 ha0
-    simp only [Heap.write]
-    rw [List.getElem?_set_ne (by omega)]
-    exact f.old a0 ha0
-
-theorem Frame.allocObj {hp0 hp : Heap} (f : Frame hp0 hp) {a : Nat} (ha : hp0.tables.length ≤ a) :
-    Frame hp0 (hp.allocObj a).1 ∧ hp0.objs.length ≤ (hp.allocObj a).2 := by
-  refine ⟨⟨f.tlen, ?_, f.old, ?_⟩, f.olen⟩
-  · simp [Heap.allocObj]; have := f.olen; omega
-  · intro o a' ho h
-    simp only [Heap.allocObj] at h
-    rw [List.getElem?_append] at h
-    split at h
-    · exact f.fresh o a' ho h
-    · rcases Nat.lt_or_ge (o - hp.objs.length) 1 with h1 | h1
-      · have : o - hp.objs.length = 0 := by omega
-        rw [this] at h; simp at h; omega
-      · rw [List.getElem?_eq_none (by simpa using h1)] at h; cases h
-
-theorem Frame.setObj {hp0 hp : Heap} (f : Frame hp0 hp) (o : Nat) {a : Nat} (ha : hp0.tables.length ≤ a) :
-    Frame hp0 { hp with objs := hp.objs.set o a } := by
-  refine ⟨f.tlen, ?_, f.old, ?_⟩
-  · simp; exact f.olen
-  · intro o' a' ho h
-    simp only at h
-    rw [List.getElem?_set] at h
-    split at h
-    · split at h
-      · cases h; exact ha
-      · cases h
-    · exact f.fresh o' a' ho h
-
-theorem addr_fresh {hp0 hp : Heap} (f : Frame hp0 hp) {h : Handle} (hd : Derivable hp0 h) {a : Nat}
-    (hm : ∃ o, h = .mut o) (ha : hp.addrOf h = some a) : hp0.tables.length ≤ a := by
-  obtain ⟨o, rfl⟩ := hm
-  exact f.fresh o a hd ha
-
-/-- a result built by copying into a fresh table and writing that table -/
-theorem frame_copy_write {hp0 hp : Heap} (f : Frame hp0 hp) (t t' : Table) :
-    Frame hp0 ((hp.copyTable t).1.write (hp.copyTable t).2 t') := by
-  have h := f.allocTable t
-  unfold Heap.copyTable
-  exact h.1.write (by rw [h.2.1]; exact f.tlen) t'
-
-theorem frame_copy_write' {hp0 hp hp2 : Heap} (f : Frame hp0 hp) {t : Table} {o : Nat}
-    (heq : hp.copyTable t = (hp2, o)) (t' : Table) : Frame hp0 (hp2.write o t') := by
-  have := frame_copy_write f t t'
-  rw [heq] at this
-  exact this
-
-theorem set_frame {hp0 hp hp' : Heap} {h h' : Handle} {same : Bool} {k v : Val}
-    (f : Frame hp0 hp) (hd : Derivable hp0 h) (hr : hp.set h k v = .ok hp' h' same) :
-    Frame hp0 hp' ∧ Derivable hp0 h' := by
-  unfold Heap.set at hr
-  split at hr
-  · split at hr
-    · cases hr
-    · split at hr
-      · cases hr; exact ⟨f, hd⟩
-      · split at hr
-        rename_i heq
-        split at hr
-        · cases hr
-          exact ⟨frame_copy_write' f heq _, trivial⟩
-        · cases hr
-    · split at hr
-      rename_i heq
-      split at hr
-      · cases hr
-        exact ⟨frame_copy_write' f heq _, trivial⟩
-      · cases hr
-  · rename_i o t a _ ha
-    split at hr
-    · cases hr; exact ⟨f.write (f.fresh _ _ hd ha) _, hd⟩
-    · cases hr
-  · cases hr
-
-theorem delete_frame {hp0 hp hp' : Heap} {h h' : Handle} {same : Bool} {k : Val}
-    (f : Frame hp0 hp) (hd : Derivable hp0 h) (hr : hp.delete h k = .ok hp' h' same) :
-    Frame hp0 hp' ∧ Derivable hp0 h' := by
-  unfold Heap.delete at hr
-  split at hr
-  · split at hr
-    · cases hr
-    · cases hr; exact ⟨f, hd⟩
-    · split at hr
-      rename_i heq
-      split at hr
-      · cases hr
-        exact ⟨frame_copy_write' f heq _, trivial⟩
-      · cases hr
-  · rename_i o t a _ ha
-    split at hr
-    · cases hr; exact ⟨f.write (f.fresh _ _ hd ha) _, hd⟩
-    · cases hr
-  · cases hr
-
-theorem clear_frame {hp0 hp hp' : Heap} {h h' : Handle} {same : Bool}
-    (f : Frame hp0 hp) (hd : Derivable hp0 h) (hr : hp.clear h = .ok hp' h' same) :
-    Frame hp0 hp' ∧ Derivable hp0 h' := by
-  unfold Heap.clear at hr
-  have ha := f.allocTable []
-  split at hr
-  · cases hr; exact ⟨ha.1, trivial⟩
-  · cases hr
-    refine ⟨ha.1.setObj _ ?_, hd⟩
-    exact f.tlen
-  · cases hr
-
-theorem mutable_frame {hp0 hp hp' : Heap} {h h' : Handle} {same : Bool}
-    (f : Frame hp0 hp) (hd : Derivable hp0 h) (hr : hp.mutable h = .ok hp' h' same) :
-    Frame hp0 hp' ∧ Derivable hp0 h' := by
-  unfold Heap.mutable at hr
-  split at hr
-  · rename_i a t _
-    cases hr
-    have ha := f.allocTable t
-    have ho := ha.1.allocObj (a := (hp.allocTable t).2) (by rw [ha.2.1]; exact f.tlen)
-    exact ⟨ho.1, ho.2⟩
-  · cases hr; exact ⟨f, hd⟩
-  · cases hr
-
-theorem immutable_frame {hp0 hp hp' : Heap} {h h' : Handle} {same : Bool}
-    (f : Frame hp0 hp) (hd : Derivable hp0 h) (hr : hp.immutable h = .ok hp' h' same) :
-    Frame hp0 hp' ∧ Derivable hp0 h' := by
-  unfold Heap.immutable at hr
-  split at hr
-  · cases hr; exact ⟨f, hd⟩
-  · cases hr; exact ⟨f, trivial⟩
-  · cases hr
-
-theorem apply_frame {hp0 hp hp' : Heap} {h h' : Handle} {same : Bool} {op : Op}
-    (f : Frame hp0 hp) (hd : Derivable hp0 h) (hr : hp.apply h op = .ok hp' h' same) :
-    Frame hp0 hp' ∧ Derivable hp0 h' := by
-  cases op <;> simp only [Heap.apply] at hr
-  · exact set_frame f hd hr
-  · exact delete_frame f hd hr
-  · exact clear_frame f hd hr
-  · exact mutable_frame f hd hr
-  · exact immutable_frame f hd hr
-
-theorem runDerived_frame {hp0 : Heap} : ∀ (prog : List (Nat × Op)) (hp : Heap) (D : List Handle),
-    Frame hp0 hp → (∀ h ∈ D, Derivable hp0 h) →
-    Frame hp0 (runDerived hp D prog).1 ∧ ∀ h ∈ (runDerived hp D prog).2, Derivable hp0 h
-  | [], hp, D, f, hD => ⟨f, hD⟩
-  | (i, op) :: rest, hp, D, f, hD => by
-    unfold runDerived
-    split
-    · exact runDerived_frame rest hp D f hD
-    · rename_i h hi
-      split
-      · rename_i hp' h' same hr
-        have := apply_frame f (hD h (List.mem_of_getElem? hi)) hr
-        apply runDerived_frame rest hp' (D ++ [h']) this.1
-        intro x hx
-        rw [List.mem_append] at hx
-        rcases hx with hx | hx
-        · exact hD x hx
-        · simp at hx; subst hx; exact this.2
-      · exact runDerived_frame rest hp D f hD
-
 
 /-! ### buckets: insertion, overwrite, removal keep the order -/
 
@@ -545,7 +346,7 @@ def SetOk (b : Bucket) (key val : Val) : SR → Prop
     BSorted (b.take i ++ (p.1, val) :: b.drop (i + 1)) ∧ equal p.1 key = true ∧ p ∈ b ∧
       ∀ q, q ∈ b.take i ++ (p.1, val) :: b.drop (i + 1) ↔ (q ∈ b ∧ equal q.1 key = false) ∨ q = (p.1, val)
   | .absent l =>
-    BSorted (b.take l ++ (key, val) :: b.drop l) ∧
+    BSorted (b.take l ++ (key, val) :: b.drop l) ∧ (∀ q ∈ b, equal q.1 key = false) ∧
       ∀ q, q ∈ b.take l ++ (key, val) :: b.drop l ↔ (q ∈ b ∧ equal q.1 key = false) ∨ q = (key, val)
   | .panic => False
 
@@ -573,9 +374,9 @@ theorem bucket_set {b : Bucket} (hs : BSorted b) (key val : Val) : SetOk b key v
   | absent l =>
     rw [hsr] at h
     obtain ⟨_, h1, h2⟩ := h
-    refine ⟨sorted_splice hs (Nat.le_refl l) (key, val) h1 (fun q hq => cmp_lt_of_gt (h2 q hq)), ?_⟩
-    intro q
     have hall := absent_all h1 h2
+    refine ⟨sorted_splice hs (Nat.le_refl l) (key, val) h1 (fun q hq => cmp_lt_of_gt (h2 q hq)), hall, ?_⟩
+    intro q
     have hm : q ∈ b ↔ q ∈ b.take l ∨ q ∈ b.drop l := by
       conv => lhs; rw [← List.take_append_drop l b]
       exact List.mem_append
@@ -734,6 +535,7 @@ theorem holds_rebuild {t : Table} (hi : TInv t) (key : Val) (b' : Bucket) (extra
 /-- `Set` keeps the invariant and acts as dictionary update keyed by `Equal` (the stored key `k0` is kept on overwrite). -/
 theorem tSet_spec {t : Table} (hi : TInv t) (key val : Val) :
     ∃ t' k0, tSet t key val = some t' ∧ TInv t' ∧ equal k0 key = true ∧
+      ((k0 = key ∧ ∀ q, Holds t q → equal q.1 key = false) ∨ ∃ v0, Holds t (k0, v0)) ∧
       ∀ q, Holds t' q ↔ (Holds t q ∧ equal q.1 key = false) ∨ q = (k0, val) := by
   have hc := cur_bucket hi (hash key)
   have hbs := bucket_set hc.1 key val
@@ -743,7 +545,8 @@ theorem tSet_spec {t : Table} (hi : TInv t) (key val : Val) :
   | found i p =>
     rw [hsr] at hbs
     obtain ⟨hs', heq, hp, hmem⟩ := hbs
-    refine ⟨_, p.1, rfl, tinv_put hi ⟨hs', by simp, ?_⟩, heq, ?_⟩
+    refine ⟨_, p.1, rfl, tinv_put hi ⟨hs', by simp, ?_⟩, heq,
+      .inr ⟨p.2, (hc.2.2 p).mp hp |>.elim fun e he => ⟨e, he.1, he.2.2⟩⟩, ?_⟩
     · intro q hq
       rcases (hmem q).mp hq with ⟨hq, _⟩ | rfl
       · exact hc.2.1 q hq
@@ -753,12 +556,17 @@ theorem tSet_spec {t : Table} (hi : TInv t) (key val : Val) :
       exact holds_rebuild hi key _ (fun q => q = (p.1, val)) hmem q
   | absent l =>
     rw [hsr] at hbs
-    obtain ⟨hs', hmem⟩ := hbs
-    refine ⟨_, key, rfl, tinv_put hi ⟨hs', by simp, ?_⟩, (cmp_zero_iff_equal key key).mp (by have := cmp_antisymm key key; omega), ?_⟩
+    obtain ⟨hs', hall, hmem⟩ := hbs
+    refine ⟨_, key, rfl, tinv_put hi ⟨hs', by simp, ?_⟩, (cmp_zero_iff_equal key key).mp (by have := cmp_antisymm key key; omega),
+      .inl ⟨rfl, ?_⟩, ?_⟩
     · intro q hq
       rcases (hmem q).mp hq with ⟨hq, _⟩ | rfl
       · exact hc.2.1 q hq
       · rfl
+    · rintro q ⟨e, he, hq⟩
+      by_cases h1 : e.1 = hash key
+      · exact hall q ((hc.2.2 q).mpr ⟨e, he, h1, hq⟩)
+      · exact holds_other hi he hq h1
     · intro q
       rw [holds_put hi]
       exact holds_rebuild hi key _ (fun q => q = (key, val)) hmem q
@@ -855,114 +663,6 @@ theorem tLen_eq : ∀ t : Table, tLen t = (tPairs t).length
   | (_, b) :: t => by simp [tLen, tPairs, tLen_eq t]
 
 
-/-! ### heap-level invariant -/
-
-/-- every Go map in the heap satisfies the table invariant -/
-def HeapInv (hp : Heap) : Prop := ∀ t ∈ hp.tables, TInv t
-
-theorem HeapInv.alloc {hp : Heap} (hi : HeapInv hp) {t : Table} (ht : TInv t) : HeapInv (hp.allocTable t).1 := by
-  intro t' ht'
-  simp only [Heap.allocTable, List.mem_append, List.mem_singleton] at ht'
-  rcases ht' with h | rfl
-  · exact hi _ h
-  · exact ht
-
-theorem HeapInv.write {hp : Heap} (hi : HeapInv hp) (a : Nat) {t : Table} (ht : TInv t) : HeapInv (hp.write a t) := by
-  intro t' ht'
-  simp only [Heap.write] at ht'
-  rcases List.mem_or_eq_of_mem_set ht' with h | rfl
-  · exact hi _ h
-  · exact ht
-
-theorem HeapInv.tableOf {hp : Heap} (hi : HeapInv hp) {h : Handle} {t : Table} (ht : hp.tableOf h = some t) : TInv t := by
-  unfold Heap.tableOf at ht
-  cases ha : hp.addrOf h with
-  | none => rw [ha] at ht; cases ht
-  | some a => rw [ha] at ht; exact hi _ (List.mem_of_getElem? ht)
-
-theorem tLook_no_panic {t : Table} (hi : TInv t) (key : Val) : tLook t key ≠ .panic := by
-  rcases tLook_spec hi key with h | ⟨_, _, h, _⟩ <;> simp [*]
-
-/-- No handle operation panics on a heap whose tables are well formed, and the result heap is well formed. -/
-theorem apply_inv {hp : Heap} (hi : HeapInv hp) (h : Handle) (op : Op) :
-    (∃ hp' h' same, hp.apply h op = .ok hp' h' same ∧ HeapInv hp') ∨ hp.apply h op = .bad := by
-  cases op with
-  | set k v =>
-    simp only [Heap.apply]
-    unfold Heap.set
-    split
-    · rename_i t _ ht _
-      have hti := hi.tableOf ht
-      obtain ⟨t', k0, hset, hti', _⟩ := tSet_spec hti k v
-      rcases tLook_spec hti k with hl | ⟨k1, v1, hl, _⟩
-      · rw [hl.1]; simp only [hset, Heap.copyTable]
-        exact .inl ⟨_, _, _, rfl, (hi.alloc hti).write _ hti'⟩
-      · rw [hl]; simp only
-        split
-        · exact .inl ⟨_, _, _, rfl, hi⟩
-        · simp only [hset, Heap.copyTable]
-          exact .inl ⟨_, _, _, rfl, (hi.alloc hti).write _ hti'⟩
-    · rename_i t _ ht _
-      have hti := hi.tableOf ht
-      obtain ⟨t', k0, hset, hti', _⟩ := tSet_spec hti k v
-      simp only [hset]
-      exact .inl ⟨_, _, _, rfl, hi.write _ hti'⟩
-    · exact .inr rfl
-  | delete k =>
-    simp only [Heap.apply]
-    unfold Heap.delete
-    split
-    · rename_i t _ ht _
-      have hti := hi.tableOf ht
-      obtain ⟨t', hdel, hti', _⟩ := tDelete_spec hti k
-      rcases tLook_spec hti k with hl | ⟨k1, v1, hl, _⟩
-      · rw [hl.1]; exact .inl ⟨_, _, _, rfl, hi⟩
-      · rw [hl]; simp only [hdel, Heap.copyTable]
-        exact .inl ⟨_, _, _, rfl, (hi.alloc hti).write _ hti'⟩
-    · rename_i t _ ht _
-      have hti := hi.tableOf ht
-      obtain ⟨t', hdel, hti', _⟩ := tDelete_spec hti k
-      simp only [hdel]
-      exact .inl ⟨_, _, _, rfl, hi.write _ hti'⟩
-    · exact .inr rfl
-  | clear =>
-    simp only [Heap.apply]
-    unfold Heap.clear
-    split
-    · exact .inl ⟨_, _, _, rfl, hi.alloc tinv_nil⟩
-    · refine .inl ⟨_, _, _, rfl, ?_⟩
-      intro t ht; exact (hi.alloc tinv_nil) t ht
-    · exact .inr rfl
-  | mutable =>
-    simp only [Heap.apply]
-    unfold Heap.mutable
-    split
-    · rename_i t ht
-      refine .inl ⟨_, _, _, rfl, ?_⟩
-      intro t' ht'; exact (hi.alloc (hi.tableOf ht)) t' ht'
-    · exact .inl ⟨_, _, _, rfl, hi⟩
-    · exact .inr rfl
-  | immutable =>
-    simp only [Heap.apply]
-    unfold Heap.immutable
-    split
-    · exact .inl ⟨_, _, _, rfl, hi⟩
-    · exact .inl ⟨_, _, _, rfl, hi⟩
-    · exact .inr rfl
-
-
-theorem runDerived_inv : ∀ (prog : List (Nat × Op)) (hp : Heap) (D : List Handle),
-    HeapInv hp → HeapInv (runDerived hp D prog).1
-  | [], _, _, hi => hi
-  | (i, op) :: rest, hp, D, hi => by
-    unfold runDerived
-    split
-    · exact runDerived_inv rest hp D hi
-    · rename_i h _
-      rcases apply_inv hi h op with ⟨hp', h', same, hr, hi'⟩ | hr
-      · rw [hr]; exact runDerived_inv rest hp' _ hi'
-      · rw [hr]; exact runDerived_inv rest hp D hi
-
 /-! ### Range is a permutation of the pairs -/
 
 theorem insertByHash_perm (e : UInt64 × Bucket) : ∀ t : Table, (insertByHash e t).Perm (e :: t)
@@ -989,5 +689,112 @@ theorem tLen_perm {t t' : Table} (hp : t.Perm t') : tLen t = tLen t' := by
   | cons e _ ih => cases e; simp [tLen, ih]
   | swap e e' t => cases e; cases e'; simp [tLen]; omega
   | trans _ _ ih1 ih2 => exact ih1.trans ih2
+
+
+open Uniflow.Dict in
+section
+
+/-! ### refinement of one table to the reference dictionary -/
+
+/-- the table `t` represents the association list `d`: same pairs, no two Equal keys -/
+def Rep (t : Table) (d : Dict) : Prop := TInv t ∧ NoDup d ∧ ∀ q, Holds t q ↔ q ∈ d
+
+theorem rep_nil : Rep [] [] := ⟨tinv_nil, by simp [NoDup], by simp [Holds]⟩
+
+theorem rep_set {t : Table} {d : Dict} (h : Rep t d) (k v : Val) :
+    ∃ t', tSet t k v = some t' ∧ Rep t' (Dict.set d k v) := by
+  obtain ⟨hi, hd, hm⟩ := h
+  obtain ⟨t', k0, hset, hi', he, hprov, hmem⟩ := tSet_spec hi k v
+  obtain ⟨k0', he', hprov', hnd, hmem'⟩ := set_spec hd k v
+  have hk : k0 = k0' := by
+    rcases hprov with ⟨rfl, hall⟩ | ⟨v0, hv0⟩ <;> rcases hprov' with ⟨rfl, hall'⟩ | ⟨v0', hv0'⟩
+    · rfl
+    · have := hall _ ((hm _).mpr hv0'); rw [he'] at this; cases this
+    · have := hall' _ ((hm _).mp hv0); rw [he] at this; cases this
+    · have := nodup_unique hd ((hm _).mp hv0) hv0' (eq_trans' he (eq_symm' he'))
+      exact congrArg Prod.fst this
+  subst hk
+  refine ⟨t', hset, hi', hnd, ?_⟩
+  intro q
+  rw [hmem q, hmem' q, hm q]
+
+theorem rep_delete {t : Table} {d : Dict} (h : Rep t d) (k : Val) :
+    ∃ t', tDelete t k = some t' ∧ Rep t' (Dict.delete d k) := by
+  obtain ⟨hi, hd, hm⟩ := h
+  obtain ⟨t', hdel, hi', hmem⟩ := tDelete_spec hi k
+  obtain ⟨hnd, hmem'⟩ := delete_spec hd k
+  refine ⟨t', hdel, hi', hnd, ?_⟩
+  intro q
+  rw [hmem q, hmem' q, hm q]
+
+/-- `Look` as an optional value -/
+def Look.toOption : Look → Option Val
+  | .hit v => some v
+  | _ => none
+
+theorem rep_look {t : Table} {d : Dict} (h : Rep t d) (k : Val) :
+    tLook t k ≠ .panic ∧ (tLook t k).toOption = Dict.get d k := by
+  obtain ⟨hi, hd, hm⟩ := h
+  rcases tLook_spec hi k with ⟨hl, hall⟩ | ⟨k0, v, hl, hh, he, _⟩
+  · rw [hl]
+    refine ⟨by simp, ?_⟩
+    rcases get_spec hd k with ⟨hg, _⟩ | ⟨k0, v, _, hin, he⟩
+    · rw [hg]; rfl
+    · have := hall _ ((hm _).mpr hin); rw [he] at this; cases this
+  · rw [hl]
+    refine ⟨by simp, ?_⟩
+    rcases get_spec hd k with ⟨_, hall⟩ | ⟨k0', v', hg, hin, he'⟩
+    · have := hall _ ((hm _).mp hh); rw [he] at this; cases this
+    · have := nodup_unique hd ((hm _).mp hh) hin (eq_trans' he (eq_symm' he'))
+      rw [hg]
+      simp only [Look.toOption]
+      exact congrArg some (congrArg Prod.snd this)
+
+theorem sorted_nodup {b : Bucket} (hs : BSorted b) : NoDup b := by
+  unfold BSorted at hs
+  exact hs.imp (fun {p q} h => equal_false_of_cmp_ne (by omega))
+
+/-- the pairs of a well-formed table have pairwise non-Equal keys -/
+theorem pairs_nodup : ∀ {t : Table}, TInv t → NoDup (tPairs t)
+  | [], _ => by simp [tPairs, NoDup]
+  | (h, b) :: t, hi => by
+    have hu := hi.1
+    unfold Uniq at hu
+    rw [List.pairwise_cons] at hu
+    have hi' : TInv t := ⟨hu.2, fun e he => hi.2 e (List.mem_cons_of_mem _ he)⟩
+    have hb := hi.2 (h, b) (List.mem_cons_self ..)
+    unfold NoDup tPairs
+    rw [List.pairwise_append]
+    refine ⟨sorted_nodup hb.1, pairs_nodup hi', ?_⟩
+    intro p hp q hq
+    obtain ⟨e, he, hqe⟩ := mem_tPairs.mp hq
+    apply not_equal_of_hash_ne
+    rw [hb.2.2 p hp, (hi'.2 e he).2.2 q hqe]
+    exact hu.1 e he
+
+theorem rep_perm {t : Table} {d : Dict} (h : Rep t d) : (tPairs t).Perm d := by
+  obtain ⟨hi, hd, hm⟩ := h
+  rw [List.perm_ext_iff_of_nodup (nodup_nodup (pairs_nodup hi)) (nodup_nodup hd)]
+  intro q
+  rw [mem_tPairs, hm q]
+
+theorem tPairs_perm {t t' : Table} (hp : t.Perm t') : (tPairs t).Perm (tPairs t') := by
+  induction hp with
+  | nil => exact List.Perm.refl _
+  | cons e _ ih => cases e; simp only [tPairs]; exact List.Perm.append_left _ ih
+  | swap e e' t =>
+    cases e; cases e'; simp only [tPairs]
+    rw [← List.append_assoc, ← List.append_assoc]
+    exact List.Perm.append_right _ List.perm_append_comm
+  | trans _ _ ih1 ih2 => exact ih1.trans ih2
+
+theorem rep_range {t : Table} {d : Dict} (h : Rep t d) : (tRange t).Perm d :=
+  (tPairs_perm (sortByHash_perm t)).trans (rep_perm h)
+
+theorem rep_len {t : Table} {d : Dict} (h : Rep t d) : tLen t = d.length := by
+  rw [tLen_eq]; exact (rep_perm h).length_eq
+
+
+end
 
 end Uniflow.MapHeap
